@@ -196,13 +196,12 @@ func fingerprintOf(pk *packages.Package, fd *ast.FuncDecl) AnchorPrint {
 	fp := AnchorPrint{Recv: RecvName(fd)}
 	if o, ok := pk.TypesInfo.Defs[fd.Name].(*types.Func); ok {
 		sig := o.Type().(*types.Signature)
-		q := func(p *types.Package) string { return p.Name() }
 		var ps, rs []string
 		for i := 0; i < sig.Params().Len(); i++ {
-			ps = append(ps, types.TypeString(sig.Params().At(i).Type(), q))
+			ps = append(ps, typeNoNames(sig.Params().At(i).Type()))
 		}
 		for i := 0; i < sig.Results().Len(); i++ {
-			rs = append(rs, types.TypeString(sig.Results().At(i).Type(), q))
+			rs = append(rs, typeNoNames(sig.Results().At(i).Type()))
 		}
 		fp.Sig = "(" + strings.Join(ps, ", ") + ") (" + strings.Join(rs, ", ") + ")"
 		if sig.Variadic() {
@@ -238,6 +237,41 @@ func fingerprintOf(pk *packages.Package, fd *ast.FuncDecl) AnchorPrint {
 	}
 	sort.Strings(fp.Feat)
 	return fp
+}
+
+// typeNoNames prints a type without the parameter names that function types
+// carry (renaming a callback's parameter is not a change of signature).
+func typeNoNames(t types.Type) string {
+	q := func(p *types.Package) string { return p.Name() }
+	switch x := t.(type) {
+	case *types.Signature:
+		var ps, rs []string
+		for i := 0; i < x.Params().Len(); i++ {
+			ps = append(ps, typeNoNames(x.Params().At(i).Type()))
+		}
+		for i := 0; i < x.Results().Len(); i++ {
+			rs = append(rs, typeNoNames(x.Results().At(i).Type()))
+		}
+		s := "func(" + strings.Join(ps, ", ") + ")"
+		if x.Variadic() {
+			s += "…"
+		}
+		if len(rs) > 0 {
+			s += " (" + strings.Join(rs, ", ") + ")"
+		}
+		return s
+	case *types.Pointer:
+		return "*" + typeNoNames(x.Elem())
+	case *types.Slice:
+		return "[]" + typeNoNames(x.Elem())
+	case *types.Array:
+		return fmt.Sprintf("[%d]%s", x.Len(), typeNoNames(x.Elem()))
+	case *types.Map:
+		return "map[" + typeNoNames(x.Key()) + "]" + typeNoNames(x.Elem())
+	case *types.Chan:
+		return "chan " + typeNoNames(x.Elem())
+	}
+	return types.TypeString(t, q)
 }
 
 func loadAnchorTable() map[string]AnchorPrint {
@@ -342,7 +376,34 @@ func matchRenames(pk *packages.Package) {
 			}
 		}
 		if ambiguous {
-			continue
+			// functions with identical fingerprints are interchangeable as far as names go: pair them in name order
+			same := func(a, b AnchorPrint) bool {
+				return a.Recv == b.Recv && a.Sig == b.Sig && strings.Join(a.Feat, "\x00") == strings.Join(b.Feat, "\x00")
+			}
+			var olds, curs []string
+			for _, o := range gone {
+				if !usedOld[o] && same(t[rel+"."+o], t[rel+"."+p.old]) {
+					olds = append(olds, o)
+				}
+			}
+			for _, n := range fresh {
+				if !usedCur[n] && same(fps[n], fps[p.cur]) {
+					curs = append(curs, n)
+				}
+			}
+			if p.score < 0.999 || len(olds) != len(curs) || !same(t[rel+"."+p.old], fps[p.cur]) {
+				continue
+			}
+			idx := -1
+			for i, o := range olds {
+				if o == p.old {
+					idx = i
+				}
+			}
+			if idx < 0 {
+				continue
+			}
+			p.cur = curs[idx]
 		}
 		usedOld[p.old], usedCur[p.cur] = true, true
 		fd := current[p.cur]
@@ -431,7 +492,7 @@ func AnchorFullName(rel, name string) string {
 	if Current != nil {
 		if fd, pk := Current.FuncDecl(rel, name); fd != nil {
 			if fn, ok := pk.TypesInfo.Defs[fd.Name].(*types.Func); ok {
-				return fn.FullName()
+				return RecordedFullName(fn) // what CalleeName prints for it
 			}
 		}
 	}
